@@ -1,5 +1,5 @@
 """C13 — releasing or waking never touches memory its owner may already have reclaimed."""
-from props.shared import mu_groups, cnt_groups, sem_wait_groups, note_tree_groups
+from props.shared import mu_groups, cnt_groups, sem_wait_groups, note_tree_groups, cv_queue_groups
 
 ID = "C13"
 LEVEL = "proof"
@@ -12,13 +12,19 @@ EXPLANATION = (
     "word value and every interference. Waker clause: nsync_counter_add unlinks, clears the waiting flag and posts the semaphore of "
     "every waiter while HOLDING counter_mu, which the waiter's dequeue also takes (hook obligations at the flag store and at the post); the "
     "cancellable wait of sem_wait.c leaves its stack record on no list of the note when it returns (the list is what it was, or was emptied "
-    "by a notifier) and never sleeps holding the note's lock; note_notify_child posts waiters only after clearing their flags (bounded tree group).")
+    "by a notifier) and never sleeps holding the note's lock; note_notify_child posts waiters only after clearing their flags (bounded tree group). "
+    "cv wakers (BOUNDED, real nsync_cv_signal / nsync_cv_broadcast / wake_waiters on the real dll.c with 0..3 queued records of every kind): a record "
+    "registered through nsync_wait_n has no remove_count, its owner's cv_dequeue decides 'still queued' from the waiting flag under the cv spinlock "
+    "and the record is reclaimed when nsync_wait_n returns; so the waker must clear the flag and post inside the spinlock section that unlinked "
+    "the record. This obligation FAILED on the tree as given (genuine defect, reproduced natively with AddressSanitizer: findings/cv_waitn_race), "
+    "was repaired by /repo commit 2becd4b and holds now.")
 ASSUMPTIONS = ["accesses to mu->waiters (a plain field) after the releasing step are not tracked by the hook; on the paths proved it is read only under the spinlock"]
-NOT_DECIDED = ["cv wakers (wake_waiters) and non-native nsync_wait_n records: see DESIGN.md section 7.3",
+NOT_DECIDED = ["cv wakers beyond 3 queued records (bounded groups cvq.*)",
                "nsync_mu_unlock_slow_'s own body is a BOUNDED check (every loop unwound 4x / 6x), listed under bounded"]
 TRUSTED = []
 
 
 def groups(tier):
-    return mu_groups(tags=["C13"], which=["mu.unlock", "mu.runlock", "mu.unlock_without_wakeup", "mu.release_spinlock", "mu.unlock_slow"]) + \
-           cnt_groups(tags=["C13"], which=["counter.add"]) + sem_wait_groups(tags=["C13"]) + note_tree_groups(tags=["C13", "C08"])
+    return mu_groups(tags=["C13"], which=["mu.unlock", "mu.runlock", "mu.unlock_without_wakeup", "mu.release_spinlock", "mu.unlock_slow"], tier=tier) + \
+           cnt_groups(tags=["C13"], which=["counter.add"]) + sem_wait_groups(tags=["C13"]) + note_tree_groups(tags=["C13", "C08"]) + \
+           [g for g in cv_queue_groups(tags=["C13"], tier=tier) if tier == "thorough" or not g.name.endswith("N3")]
